@@ -1,6 +1,6 @@
 PROP = dict(
     harness="c07", level="exploration",
-    quick=dict(cases=160000, max_size=100, workers=8),
+    quick=dict(cases=480000, max_size=100, workers=16),
     thorough=dict(cases=16000000, max_size=100, workers=16),
     rule=("rapidcheck-generated FuncFrame descriptions (arch x86-64/x86-32/AArch64; every CallConvId the arch accepts on linux/windows/darwin "
           "environments; 0-12 arguments with stack-passed ones; dirty masks for GP/Vec/K/MM; local and call stack size 0..64 KiB with "
